@@ -203,6 +203,11 @@ enum Guards : unsigned
     G_NONE = 0,
     G_MOVEASSIGN_UNITS = 1,  // KF-1: unequal-allocator move assignment into a smaller target over-allocates (bytes taken for units)
     G_VECTOR_ORDER_PARTIAL = 2,  // KF-2: vector < is a lexicographical compare over a partial element order: not transitive
+    // views of the fault-enumeration mode (prop 17) used by the fault sub-campaigns of other properties: only failures
+    // of that property's own oracle family count, everything else is left to C17 (not a known-finding guard)
+    G_VIEW_LIFETIMES = 0x100,  // C06: object-lifetime registry events
+    G_VIEW_LEDGER = 0x200,     // C07: checking-allocator events
+    G_VIEW_RESERVE = 0x400,    // C10: any failure, but only when the operation that met the failure is reserve()
 };
 
 ConfigEntry& the_config();  // defined by the generated configuration TU
